@@ -68,6 +68,34 @@ CHECKS["C12"] = dict(
          "observer ops (dumps) are excluded from injection",
     design_ref="DESIGN.md section 2, C12")
 
+CHECKS["C06"] = dict(
+    technique="runtime monitoring: sanitized save/load driven over the "
+              "configuration cross-product; offline oracle = independent "
+              "Touchstone/NPD reader (pylib/tsnpd.py) + netparams",
+    text="Objects over all parameter types, 1..6 ports, four z0 modes, "
+         "magnitudes 1e-12..1e12, file types by extension and by "
+         "set_filetype, single and multi-parameter format lists and "
+         "precisions 1..17/MAX: cksave/save/fsave must agree, the bytes "
+         "written are parsed by an independent reader and compared with "
+         "values computed from the object's data, and vnadata_load of the "
+         "file must reproduce the network.",
+    note="trusted: the independent reader written from the Touchstone 1.1/2.0 "
+         "specifications and the NPD description of vnadata(3); numpy; forms "
+         "undefined for a value (dB of 0 ...) are excluded by the generator",
+    design_ref="DESIGN.md section 2, C06")
+CHECKS["C08"] = dict(
+    technique="runtime monitoring: independent writer produces equivalence "
+              "classes of spellings; the real loader's results are compared "
+              "with the ground truth offline",
+    text="Each class holds >= 4 spellings of one ground truth (units, RI/MA/DB, "
+         "S/Z/Y/H/G, option-line order and defaults, v1 1..4 ports incl. the "
+         "9-number ambiguity and wrapping, v2 Full/Upper/Lower, both two-port "
+         "orders, [Reference], noise blocks, comments, case, spacing, NPD "
+         "header order); every member must load to the ground truth.",
+    note="trusted: tsnpd.py writer; NPD header lines keep #:ports before "
+         "#:z0 because libvna's format defines the other order as an error",
+    design_ref="DESIGN.md section 2, C08")
+
 NOT_YET = {}
 
 
